@@ -9,6 +9,7 @@
   therefore always designate the jobs the documentation says they do."
 -/
 import YashModel.Job.Steps
+import YashModel.Job.BuiltinSteps
 namespace YashModel.Job
 
 /-- The statement of the property on one table, in the existential form of the property text and
@@ -43,7 +44,8 @@ theorem inv_init : Inv JobList.empty := by
   · intro p i; simp [JobList.empty, lookup, gets_nil]
   · exact ⟨by simp [JobList.empty], by simp [JobList.empty]⟩
 
-/-- ★ every operation preserves it -/
+/-- ★ every operation preserves it — the `JobList` API calls, and the built-ins `jobs`, `bg`, `fg`,
+    `wait` and the asynchronous command `cmd &` as wholes -/
 theorem inv_step (s : JobList) (op : Op) (h : Inv s) (hpre : opPre s op = true) : Inv (step s op) := by
   cases op with
   | insert pid st => exact insert_inv s _ h hpre
@@ -64,6 +66,13 @@ theorem inv_step (s : JobList) (op : Op) (h : Inv s) (hpre : opPre s op = true) 
     | some j => exact setSlot_inv s i j _ hg ⟨rfl, rfl⟩ h
   | disown => exact mapJobs_inv s _ (fun j => ⟨rfl, rfl⟩) h
   | setAsync pid => exact ⟨h.j, h.p, h.f⟩
+  | insertJob pid st jc name => exact insert_inv s _ h hpre
+  | jobs args => exact jobsBuiltin_inv s args h
+  | bg m args => exact bgBuiltin_inv s m args h
+  | fg m out args => exact fgBuiltin_inv s m out args h
+  | wait args => exact waitBuiltin_inv s args h
+  | wres arg => exact h
+  | amp pid m i name => exact ampersand_inv s pid m i name h hpre
 
 /-- ★ hence it holds after every history — any length, any number of jobs -/
 theorem inv_reachable (ops : List Op) (s : JobList) (h : Inv s) (hp : PathPre s ops) : Inv (run s ops) := by
@@ -143,37 +152,40 @@ theorem setCurrent_same (s s' : JobList) (k : Nat) (hs : s.setCurrentJob k = .ok
     · cases hs
     · split at hs <;> cases hs <;> exact ⟨rfl, rfl⟩
 
-/-- ★ index stability for every operation -/
+theorem insert_stable (s : JobList) (job : Job) (h : Inv s) : Stable s (s.insert job).2 := by
+  have hP := h.p
+  intro i j hi
+  left
+  simp only [JobList.insert]
+  cases hl : lookup s.pids job.pid with
+  | none =>
+    simp only
+    obtain ⟨hs1, hs2, _⟩ := slabInsert_spec s.entries s.free job h.f
+    unfold JobList.get
+    simp only
+    rw [hs2 i]
+    have : i ≠ (slabInsert s.entries s.free job).1 := by
+      intro e; unfold JobList.get at hi; rw [e, hs1] at hi; cases hi
+    simp only [this, if_false]
+    exact ⟨j, hi, rfl⟩
+  | some k =>
+    simp only
+    obtain ⟨old, ho1, ho2⟩ := (hP job.pid k).mp hl
+    unfold JobList.get
+    simp only
+    rw [gets_set _ _ _ _ (gets_some_lt ho1)]
+    by_cases hik : i = k
+    · subst hik
+      unfold JobList.get at hi; rw [ho1] at hi; cases hi
+      exact ⟨job, if_pos rfl, ho2.symm⟩
+    · simp only [hik, if_false]; exact ⟨j, hi, rfl⟩
+
+/-- ★ index stability for every operation, built-ins included -/
 theorem index_stable (s : JobList) (op : Op) (h : Inv s) (hpre : opPre s op = true) : Stable s (step s op) := by
   have hu := (consistent_of_inv s h).pid_unique
   have hP := h.p
   cases op with
-  | insert pid st =>
-    intro i j hi
-    left
-    simp only [step, JobList.insert]
-    cases hl : lookup s.pids pid with
-    | none =>
-      simp only
-      obtain ⟨hs1, hs2, _⟩ := slabInsert_spec s.entries s.free { pid := pid, state := st } h.f
-      unfold JobList.get
-      simp only
-      rw [hs2 i]
-      have : i ≠ (slabInsert s.entries s.free { pid := pid, state := st }).1 := by
-        intro e; unfold JobList.get at hi; rw [e, hs1] at hi; cases hi
-      simp only [this, if_false]
-      exact ⟨j, hi, rfl⟩
-    | some k =>
-      simp only
-      obtain ⟨old, ho1, ho2⟩ := (hP pid k).mp hl
-      unfold JobList.get
-      simp only
-      rw [gets_set _ _ _ _ (gets_some_lt ho1)]
-      by_cases hik : i = k
-      · subst hik
-        unfold JobList.get at hi; rw [ho1] at hi; cases hi
-        exact ⟨{ pid := pid, state := st }, if_pos rfl, ho2.symm⟩
-      · simp only [hik, if_false]; exact ⟨j, hi, rfl⟩
+  | insert pid st => exact insert_stable s _ h
   | update pid st =>
     intro i j hi
     left
@@ -236,6 +248,16 @@ theorem index_stable (s : JobList) (op : Op) (h : Inv s) (hpre : opPre s op = tr
   | setAsync pid =>
     intro i j hi
     exact Or.inl ⟨j, hi, rfl⟩
+  | insertJob pid st jc name => exact insert_stable s _ h
+  | jobs args => exact stable_of_sub _ _ h (jobsBuiltin_sub s args)
+  | bg m args => exact stable_of_sub _ _ h (bgBuiltin_sub s m args)
+  | fg m out args => exact stable_of_sub _ _ h (fgBuiltin_sub s m out args)
+  | wait args => exact stable_of_sub _ _ h (waitBuiltin_sub s args)
+  | wres arg => exact stable_of_sub _ _ h (Sub.refl s)
+  | amp pid m i name =>
+    intro i' j hi
+    have := insert_stable s (asyncJob pid m name) h i' j hi
+    exact this
 
 /-- ★ `%%`/`%+` designate the current job, `%-` the previous job, `%n` the job at index `n-1`;
     on a consistent table `%%` succeeds iff the table is non-empty. -/
@@ -257,17 +279,18 @@ theorem jobid_current_total (s : JobList) (h : Inv s) (hne : ∃ i j, s.get i = 
   obtain ⟨c, j, hc, _⟩ := (consistent_of_inv s h).current_exists hne
   exact ⟨c, ((jobid_designates s).1 c).mpr hc⟩
 
-/-- ★ `$!` is the pid of the last asynchronous command: only `set_last_async_pid` changes it. -/
+/-- ★ `$!` changes only through `set_last_async_pid`: directly, in `cmd &` (the pid of the new
+    child) and in `bg` (see `bg_resumed`); `jobs`, `fg`, `wait` leave it alone. -/
 theorem last_async (s : JobList) (op : Op) :
-    (step s op).lastAsync = match op with | .setAsync p => p | _ => s.lastAsync := by
+    (step s op).lastAsync = match op with
+      | .setAsync p => p
+      | .amp p _ _ _ => p
+      | .bg m args => (bgBuiltin s m args).2.lastAsync
+      | _ => s.lastAsync := by
   cases op with
   | insert pid st =>
     simp only [step, JobList.insert]; cases lookup s.pids pid <;> rfl
-  | update pid st =>
-    simp only [step, JobList.updateStatus]
-    cases lookup s.pids pid with
-    | none => rfl
-    | some idx => simp only; cases gets s.entries idx <;> rfl
+  | update pid st => exact update_lastAsync s pid st
   | setCurrent i =>
     simp only [step]
     cases hs : s.setCurrentJob i with
@@ -281,6 +304,14 @@ theorem last_async (s : JobList) (op : Op) :
   | expect i st => simp only [step, JobList.expect]; cases gets s.entries i <;> rfl
   | disown => rfl
   | setAsync pid => rfl
+  | insertJob pid st jc name =>
+    simp only [step, JobList.insert]; cases lookup s.pids pid <;> rfl
+  | jobs args => exact jobsBuiltin_lastAsync s args
+  | bg m args => rfl
+  | fg m out args => exact fgBuiltin_lastAsync s m out args
+  | wait args => exact waitBuiltin_lastAsync s args
+  | wres arg => rfl
+  | amp pid m i name => rfl
 
 /-! ### the precondition is needed and satisfiable; hypotheses are met by non-trivial histories -/
 
